@@ -427,6 +427,18 @@ func TestCheck(t *testing.T) {
 		rng := r.Rand("mut", i)
 		judgeBytes(r, "mut", mutate(rng, reflabel.Encode(genNames(rng))))
 	}
+	// (3b) committed corpus: replay + mutants
+	corp := mon.Corpus("label")
+	for i, b := range corp {
+		if r.Mine(i) {
+			judgeBytes(r, "corpus", b)
+			rng := r.Rand("corpus", i)
+			for k := 0; k < r.Pick(3, 40); k++ {
+				judgeBytes(r, "corpus-mut", mutate(rng, b))
+			}
+		}
+	}
+	r.Set("corpus_entries", len(corp))
 	// (4) single edits of parsed sets
 	e := r.Pick(40000, 5000000)
 	for i := 0; i < e; i++ {
